@@ -311,7 +311,7 @@ class HalfRankComponent(OutputWarper):
     std = np.sqrt(
         ((good_half - threshold) ** 2).sum() * (1 / good_half.shape[0])
     )
-    if std > 0:
+    if np.isfinite(std) and std > 0:
       return std
     std = np.sqrt(
         ((unique_labels - threshold) ** 2).sum() * (1 / unique_labels.shape[0])
